@@ -179,18 +179,20 @@ def classify(diags, mp, unit_name=""):
                 rid = rid + "@" + r2["item"]
                 break
         props = set(r["props"]) if r else set()
-        if UNITS.get(unit_name, {}).get("attribute_to_impl") and r is not None and r.get("item", "").startswith("trait"):
-            # in this unit a failed trait-level clause is the business of the implementing function only
-            for s2 in spans:
-                r2 = region_of(mp, s2["line_start"])
-                if r2 is not None and r2.get("kind") in ("fn-body", "loop-clause") and r2.get("item") != r.get("item"):
-                    props = set()
-                    break
+        impl_props = None
         for s2 in spans:
             r2 = region_of(mp, s2["line_start"])
             # a clause that lives in a trait declaration also carries the tags of the implementing function
             if r2 is not None and r is not None and r2.get("kind") in ("fn-body", "loop-clause") and r2.get("item") != r.get("item") and r.get("item", "").startswith("trait"):
-                props |= set(r2["props"])
+                impl_props = (impl_props or set()) | set(r2["props"])
+        if impl_props is not None:
+            if UNITS.get(unit_name, {}).get("attribute_to_impl"):
+                # in this unit a failed trait-level clause is the business of the implementing function only:
+                # the properties the clause and the function share, or the function's own if they share none
+                both = props & impl_props
+                props = both if both else impl_props
+            else:
+                props |= impl_props
         fails.append({"region": r, "rid": rid, "msg": msg, "line": line, "props": sorted(props),
                       "rendered": d.get("rendered", "")[:4000]})
     return fails, undec
